@@ -47,10 +47,14 @@ def synth_weather(spec):
     days = int(spec.get("days", 1200))
     dates = pd.date_range(start, periods=days, freq="D")
     tmin, tmax, pr, et = [], [], [], []
+    yr_amp = float(reg.get("yr_amp", 0.0))       # inter-annual variability: a temperature anomaly per calendar year (own random stream)
+    anomaly = {}
     for d in dates:
         doy = d.dayofyear
         season = math.sin(2 * math.pi * (doy - 105) / 365.25)
-        tm = reg["tmean"] + reg["tamp"] * season + rnd.gauss(0, 2.0)
+        if yr_amp and d.year not in anomaly:
+            anomaly[d.year] = random.Random(int(spec.get("seed", 0)) * 7919 + d.year).uniform(-yr_amp, yr_amp)
+        tm = reg["tmean"] + reg["tamp"] * season + rnd.gauss(0, 2.0) + (anomaly[d.year] if yr_amp else 0.0)
         half = max(0.5, reg["dtr"] + rnd.gauss(0, 1.0))
         tmin.append(round(tm - half, 1))
         tmax.append(round(tm + half, 1))
